@@ -49,6 +49,11 @@ HAND = [
     "template T() { signal input a; signal output out; var k = 0; var sel = 0; out <== (sel == 0) ? a : a * a; }",
     "function f(y) { var d = 2; var arr[d]; arr[0] = y; return arr[0]; }",
     "function f(y) { var e = 1; assert(e == 1); return y; }",
+    # a local used only as an index *after* a component access (which port element is read / driven)
+    "template T(n) { signal input in[n]; signal output out; component c = Inner(n); for (var i = 0; i < n; i++) { c.in[i] <== in[i]; } var last = n - 1; out <== c.out[last]; }",
+    "template T() { signal input in; signal output out; component c = Inner(2); var hot = 0; var cold = 1 - hot; c.in[hot] <== in; c.in[cold] <== 0; out <== c.out[0] + c.out[1]; }",
+    "template T(n) { signal input in; signal output out; component cs[2]; var k = 1; var j = 0; cs[0] = Inner(2); cs[1] = Inner(2); cs[k].in[j] <== in; out <== cs[k].out[j]; }",
+    "template T() { signal input in; signal output out; component c = Inner(2); var sel = 1; var z = 0; c.in[0] <== in; c.in[1] <== in; out <-- c.out[sel] + z; out === c.out[sel]; }",
 ]
 
 
